@@ -386,6 +386,11 @@ func runC13(r *Run) {
 	case 1:
 		opts.HTTPHeader.Set("X-Custom", "custom-value")
 		opts.HTTPHeader.Set("Authorization", "Bearer token")
+		// several values under one key (cookie lines, a forwarding chain): every one
+		// of them is the caller's header and has to reach the wire, in order
+		opts.HTTPHeader["Cookie"] = []string{"a=1", "b=2", "c=3"}
+		opts.HTTPHeader.Add("X-Forwarded-For", "10.0.0.1")
+		opts.HTTPHeader.Add("X-Forwarded-For", "10.0.0.2")
 	case 2:
 		opts.HTTPHeader.Set("X-Custom", "custom-value")
 		opts.HTTPHeader.Set("Connection", "keep-alive")
@@ -533,6 +538,17 @@ func runC13(r *Run) {
 		}
 		if rec.host != wantHost {
 			r.Violate("request-host", s2, "attempt %d: Host %q, want %q", i, rec.host, wantHost)
+		}
+		if extraHdr == 1 {
+			if got := h.Values("Cookie"); strings.Join(got, "|") != "a=1|b=2|c=3" {
+				r.Violate("request-caller-header", s2+",multi-value", "attempt %d: the caller's three Cookie values arrived as %q", i, got)
+			}
+			if got := h.Values("X-Forwarded-For"); strings.Join(got, "|") != "10.0.0.1|10.0.0.2" {
+				r.Violate("request-caller-header", s2+",multi-value", "attempt %d: the caller's two X-Forwarded-For values arrived as %q", i, got)
+			}
+			if h.Get("Authorization") != "Bearer token" {
+				r.Violate("request-caller-header", s2, "attempt %d: caller header Authorization = %q", i, h.Get("Authorization"))
+			}
 		}
 		if extraHdr > 0 && h.Get("X-Custom") != "custom-value" {
 			r.Violate("request-caller-header", s2, "attempt %d: caller header X-Custom = %q", i, h.Get("X-Custom"))
